@@ -122,6 +122,7 @@ class Exec:
         self.stats = dict(blocks=0, edges=0, ins=0, inlined=0)
         self.assumptions = []    # constraints introduced by stubs (e.g. allocator results are fresh)
         self._sdivs = {}         # per run: AST id of a bvsdiv result -> (dividend, divisor, result)
+        self.unit_mul_split = False   # rewrite x*y to an ite over y in {1,-1,0} (exactly equivalent)
         self.arith_log = []      # executed mul/sdiv/srem with symbolic operands: dict(op, g, x, y, r, fn) (operand lemmas)
         self.trace_functions = set()
         self._layout_cache = {}
@@ -746,6 +747,10 @@ class Exec:
                 r = a_ - z3.SRem(a_, b_)
             else:
                 r = x * y
+                if self.unit_mul_split and not (z3.is_bv_value(z3.simplify(x)) or z3.is_bv_value(z3.simplify(y))):
+                    # exact case split of the same product (x * 1, x * -1, x * 0): equivalent term, easier for the SAT core
+                    one, zero = z3.BitVecVal(1, y.size()), z3.BitVecVal(0, y.size())
+                    r = z3.If(y == one, x, z3.If(y == -one, -x, z3.If(y == zero, zero, r)))
                 if not (z3.is_bv_value(z3.simplify(x)) or z3.is_bv_value(z3.simplify(y))):
                     self.arith_log.append(dict(op='mul', g=g, x=x, y=y, r=r, fn=fn))
                 if 'nsw' in flags: need(z3.Not(z3.And(z3.BVMulNoOverflow(x, y, True), z3.BVMulNoUnderflow(x, y))), 'signed overflow')
